@@ -107,6 +107,12 @@ func DrawKnobs(r *simcore.Run, thorough bool) (Knobs, universeCfg, uint32) {
 			k.GlueMaxDrop = t.CfgDraw(4)
 		}
 	}
+	// appended last: some restarts of the restart arms bring the notifier up
+	// with height-hint-cache-query-disable (hints are still written, never
+	// read); 0 = never
+	if k.Restarts {
+		k.QueryDisableDen = []int{0, 0, 4, 2}[t.CfgDraw(4)]
+	}
 	return k, uc, base
 }
 
@@ -687,6 +693,7 @@ func (s *Sim) register(c *client) {
 		rs.grp.unwatchedLow = noLow
 	}
 	rs.registered = true
+	rs.everRegistered = true
 	rs.grp.allOK = rs.grp.allOK && hintOK
 	if c.hint > rs.maxHint {
 		rs.maxHint = c.hint
@@ -963,6 +970,15 @@ func (s *Sim) opRestart(why string) {
 	s.rescans = nil
 	for _, rs := range s.reqOrder {
 		rs.resetEpoch()
+	}
+	s.queryDisabled = false
+	if why != "final" && s.K.QueryDisableDen > 0 && r.Draw(s.K.QueryDisableDen) == 0 {
+		// this instance runs with the hint cache's QueryDisable option:
+		// persisted hints are ignored at registration but must be kept
+		// current all the same (the next instance relies on them)
+		s.queryDisabled = true
+		r.Count("probe_epoch_with_hint_query_disabled")
+		r.Logf("this instance runs with QueryDisable")
 	}
 	s.boot()
 	s.seq++
